@@ -14,6 +14,12 @@
          through the same label getter
   C15.6  endOverlapsWithStartOf contains the one necessary disjunct: other.start <= self.end on any sequence (the later
          segment starts at or before the earlier one's end); further disjuncts are harmless and only observed
+  C15.7  the position comparators the overlap window is built from mean what their names say: for an aligned pair,
+         lessOnBothSequences = (query < other.query) and (reference < other.reference), lessOrEqualOnAnySequence = <= on
+         the query or on the reference; for an unpaired label the single comparison on its own axis (strict / inclusive);
+         the null pair is never less; the unpaired-query and unpaired-reference classes agree under reference<->query
+  C15.8  the reference-label and query-label characteristics (labels, carried scores, indexes) that the merge point is
+         computed from are the same computation under reference<->query
 Declined: "afterwards no two segments share a label or cross" and "pairs outside the overlap are all kept".
 """
 from __future__ import annotations
@@ -101,6 +107,22 @@ def per_side_cuts(ck, rule, cut_bounds, impls, LS, RS):
                          required=f"{T.show(own_char)}.indexes[<merge index>]")
         else:
             raise AnalysisError(f"{w}: cut index of the {side} sub-run not recognised: {T.show(bound)[:160]}")
+    # the interior cut is taken only when both sub-runs hold the same number of labels (the cumulated score arrays are
+    # added element-wise)
+    for side, other, fn, w in cut_bounds[:1]:
+        prm = [pp.name for pp in fn.call_params()]
+        want_eq = T.mk_eq(T.mk_call("len", [T.mk_attr(V(prm[0]), "positions")]), T.mk_call("len", [T.mk_attr(V(prm[1]), "positions")]))
+        guarded = False
+        for pa in explore(ck, fn, unroll=(0, 1)):
+            if pa.outcome == "return" and pa.value[0] == "tuple" and any(
+                    x[0] == "slice" for y in pa.value[1] for x in T.subterms(y)):
+                pc, pol = T.positive(want_eq)
+                tv = pa.facts.get(pc)
+                guarded = tv is not None and (tv == pol)
+                ck.judge(guarded, rule, f"{short(fn)}:equal-label-counts", where(fn, pa.node),
+                         "segments are cut inside the overlap only when both conflicting sub-runs hold the same number of labels",
+                         found=pa.describe()[:200], required=T.show(want_eq)[:160])
+                break
     if len(merge_indexes) == 2:
         ck.judge(merge_indexes["left"] == merge_indexes["right"], rule, "merge-index:shared", cut_bounds[0][3],
                  "both sub-runs are cut at the same merge index", found=f"{T.show(merge_indexes['left'])[:100]} vs {T.show(merge_indexes['right'])[:100]}")
@@ -277,6 +299,15 @@ def run(ck):
                 ck.judge(ok, "C15.1", f"{short(sub_fn)}:predicate", where(sub_fn, pa.node),
                          "a position is removed exactly when it is among the positions to subtract", found=T.show(pos)[:200],
                          required="[p for p in self.positions if p not in other]")
+                if ok:
+                    # what is subtracted for a segment operand: all of its positions (pairs and unpaired labels alike)
+                    removed = ifs[0][2]
+                    oparam = V(sub_fn.call_params()[0].name)
+                    attrs = {x[2] for x in T.subterms(removed) if x[0] == "attr" and x[1] == oparam}
+                    ck.judge(attrs <= {"positions"} and (not attrs or "positions" in attrs), "C15.1", f"{short(sub_fn)}:operand",
+                             where(sub_fn, pa.node), "subtracting a segment removes every position of it - unpaired labels of the "
+                             "removed sub-run included (otherwise they stay behind: the result is no contiguous sub-run and carries "
+                             "their penalties)", found=T.show(removed)[:200], required="other.positions (or the list given)")
 
     # ---- C15.3 sub-segments are slices over the overlap; earlier member is left
     create = p.find_method("_SegmentPairWithConflict", "create")
@@ -324,6 +355,91 @@ def run(ck):
     pairwise_pass(ck, "C15.2")
     slice_window(ck)
     overlap_test(ck)
+    comparators(ck, "C15.7")
+    from .c11 import position_order
+    position_order(ck, "C15.7")
+    label_characteristics(ck, "C15.8")
+
+
+def comparators(ck, rule):
+    from ..rules.siblings import semantic_symmetry
+    p = ck.ctx.p
+    ck.clause(rule, "position comparators: strict on both axes / inclusive on any axis; unpaired labels compare on their own axis")
+    ap = p.find_class("AlignedPair")
+    swaps = [("reference", "query"), ("Reference", "Query")]
+
+    def ret(cls, name):
+        m = p.lookup_method(cls, name, None)
+        if m is None or m.cls is not cls and cls.name != "AlignedPair":
+            m = cls.methods.get(name)
+        if m is None:
+            raise AnalysisError(f"{cls.where}: {cls.name}.{name} not found")
+        from ..rules.common import merged_return
+        v, pa = merged_return(ck, m)
+        return m, T.as_bool(v), V(m.call_params()[0].name), pa
+    # aligned pair
+    m, v, other, pa = ret(ap, "lessOnBothSequences")
+    q_lt = T.mk_lt(self_attr("query"), T.mk_attr(other, "query"))
+    r_lt = T.mk_lt(self_attr("reference"), T.mk_attr(other, "reference"))
+    ck.judge(v == T.mk_and([q_lt, r_lt]), rule, short(m), where(m, pa.node),
+             "an aligned pair is 'less on both sequences' iff it is strictly before on the query AND on the reference",
+             found=T.show(v)[:200], required=T.show(T.mk_and([q_lt, r_lt]))[:200])
+    m, v, other, pa = ret(ap, "lessOrEqualOnAnySequence")
+    q_lt = T.mk_lt(self_attr("query"), T.mk_attr(other, "query"))
+    r_lt = T.mk_lt(self_attr("reference"), T.mk_attr(other, "reference"))
+    q_eq = T.mk_eq(self_attr("query"), T.mk_attr(other, "query"))
+    r_eq = T.mk_eq(self_attr("reference"), T.mk_attr(other, "reference"))
+    q_le = T.mk_le(self_attr("query"), T.mk_attr(other, "query"))
+    r_le = T.mk_le(self_attr("reference"), T.mk_attr(other, "reference"))
+    D = set(v[1]) if v[0] == "or" else {v}
+    ok_q = q_le in D or {q_lt, q_eq} <= D
+    ok_r = r_le in D or {r_lt, r_eq} <= D
+    extra = D - {q_lt, r_lt, q_eq, r_eq, q_le, r_le}
+    ck.judge(ok_q and ok_r and not extra, rule, short(m), where(m, pa.node),
+             "an aligned pair is 'less or equal on any sequence' iff it is at or before the other on the query OR on the reference",
+             found=T.show(v)[:240], required="query <= other.query or reference <= other.reference")
+    # unpaired labels
+    for cls_name, axis in (("NotAlignedQueryPosition", "query"), ("NotAlignedReferencePosition", "reference")):
+        cls = p.find_class(cls_name)
+        for name, mk, word in (("lessOnBothSequences", T.mk_lt, "strictly before"), ("lessOrEqualOnAnySequence", T.mk_le, "at or before")):
+            m, v, other, pa = ret(cls, name)
+            want = mk(T.mk_attr(self_attr(axis), "position"), T.mk_attr(T.mk_attr(other, axis), "position"))
+            ck.judge(v == want, rule, short(m), where(m, pa.node),
+                     f"an unpaired {axis} label is compared on the {axis} axis only: {word} the other's {axis} label",
+                     found=T.show(v)[:160], required=T.show(want)[:160])
+    q, r = p.find_class("NotAlignedQueryPosition"), p.find_class("NotAlignedReferencePosition")
+    for name in ("lessOnBothSequences", "lessOrEqualOnAnySequence"):
+        semantic_symmetry(ck, rule, r.methods[name], q.methods[name], swaps, f"unpaired-label comparator {name}")
+    # the null pair
+    nul = p.find_class("_NullAlignedPair")
+    for name in ("lessOnBothSequences", "lessOrEqualOnAnySequence"):
+        if name in nul.methods:
+            m, v, other, pa = ret(nul, name)
+            ck.judge(v == C(False), rule, short(m), where(m, pa.node), "the null pair is never before anything (an empty segment "
+                     "conflicts with nothing)", found=T.show(v)[:80], required="False")
+
+
+def label_characteristics(ck, rule):
+    from ..rules.siblings import semantic_symmetry
+    p = ck.ctx.p
+    ck.clause(rule, "reference-label and query-label characteristics are the same computation under reference<->query")
+    seg = p.find_class("AlignmentSegment")
+    a, b = seg.methods.get("getReferenceLabels"), seg.methods.get("getQueryLabels")
+    if a is None or b is None:
+        raise AnalysisError(f"{seg.where}: getReferenceLabels / getQueryLabels not found")
+    semantic_symmetry(ck, rule, a, b, [("reference", "query"), ("Reference", "Query")], "label characteristics of a segment",
+                      unroll=(1, 2, 3))
+    # each characteristic is anchored on one side at least: labels of a paired position come from position.reference
+    from ..rules.common import explore as _explore
+    ok = False
+    for pa in _explore(ck, a, unroll=(1,)):
+        if pa.outcome == "return" and pa.value[0] == "new":
+            args = dict(pa.value[2])
+            pos = args.get("positions")
+            if pos is not None and pos[0] == "list" and pos[1]:
+                ok = ok or any(x[0] == "attr" and x[2] == "reference" for x in T.subterms(pos))
+    ck.judge(ok, rule, short(a) + ":axis", a.where, "the reference characteristics list reference labels",
+             found="no .reference label in the positions list" if not ok else None)
 
 
 def overlap_test(ck, rule="C15.6"):
